@@ -161,6 +161,7 @@ func runAsync(out *TraceWriter, seed int64, run int, steps int) {
 		nc := cfg
 		nc.Watch = id == watchFlag
 		n := c.AddNode(id, nc)
+		n.LaxVerify = run%3 != 0 // most asynchronous runs: an application that does not look at block bodies (what the library puts into a block is then judged by the C02 formulas)
 		n.Height = a.h0
 		a.seen[id] = map[int]bool{}
 		nodes = append(nodes, id)
